@@ -179,6 +179,15 @@ def scalar_case(rng, name, rounds):
             L.append(f'put {rng.choice(ids + [c])} {g.spec(ty)}')
             a, b = rng.choice(ids + [c, j]), rng.choice(ids + [c, j])
             L.append(f'swap {a} {b}'); L.append(f'eq {a} {b}')
+            if ty == 'S':      # undo: a String swapped across allocation classes holds the other's buffer (KF-C10-swap-foreign-buffer: no mutation in that state)
+                L.append(f'swap {a} {b}')
+            # two objects whose buffers are both the allocator's (heap, embedded in an Array): swapped, then both assigned to
+            h1, h2 = rng.sample([ids[1], ids[2], c], 2)
+            L += [f'swap {h1} {h2}', f'put {h1} {g.spec(ty)}', f'put {h2} {g.spec(ty)}', f'assign {h1} {h1}', f'eq {h1} {h2}']
+            # two different types: swap raises TypeError and nothing moves
+            if rng.random() < 0.4:
+                oty = rng.choice([t for t in ['I', 'F', 'S', rng.choice(RAW_ANY)] if t != ty]); o = g.fresh()
+                L += [f'new {o} {rng.choice("SHE")} {g.spec(oty)}', f'swap {rng.choice(ids)} {o}', f'swap {o} {rng.choice(ids)}', f'H {o}']
             # Ref / Box to these objects
             if rng.random() < 0.5:
                 t = rng.choice(ids); k = rng.choice('rb')
@@ -539,9 +548,9 @@ def near_case(rng, name, rounds):
         L += [f'eq {ia[0]} {ib}', f'eq {ib} {ia[1]}', f'eq {ia[0]} {ic}', f'eq {ia[0]} {ia[0]}']
         if rng.random() < 0.5:
             c = g.fresh(); L += [f'copy {c} {ib}', f'eq {c} {ia[0]}', f'eq {c} {ib}']
-            if ty != 'S': L += [f'assign {c} {c}']
+            L += [f'assign {c} {c}']
             L += [f'assign {c} {ia[1]}', f'eq {c} {ib}', f'swap {c} {ib}', f'eq {c} {ib}', f'swap {c} {ib}']
-        if ty != 'S' and rng.random() < 0.3: L.append(f'assign {ia[0]} {ia[0]}')
+        if rng.random() < 0.3: L.append(f'assign {ia[0]} {ia[0]}')
         # the same pair as the elements at one position of two sequences
         n = rng.randrange(1, 6); pos = rng.randrange(n)
         base = [g.spec(ty) for _ in range(n)]
@@ -618,13 +627,21 @@ def fuzz_case(rng, name, nops):
             if c is None: continue
             kind, ety, n, cls = pool[c]; L.append(f'has {c} {g.spec(ety[0] if kind == "tre" else ety)}')
         elif r < 0.70:
-            a, b = pick(), pick(); L.append(f'eq {a} {b}')
+            a, b = pick(), pick()
+            if pool[a][0] in ('arr', 'lst', 'tup') and pool[b][0] == 'tre': a, b = b, a      # a sequence against a map: KF-C10-seq-map-eq
+            L.append(f'eq {a} {b}')
         elif r < 0.80:
             a = pick(['v', 'arr', 'lst', 'tup', 'tre']); i = g.fresh(); L.append(f'copy {i} {a}'); pool[i] = pool[a][:3] + ('H',)
         elif r < 0.90:
-            a, b = pick(['v', 'arr', 'lst', 'tup', 'tre']), pick(['v', 'arr', 'lst', 'tup', 'tre']); L.append(f'assign {a} {b}')
+            a, b = pick(['v', 'arr', 'lst', 'tup', 'tre']), pick(['v', 'arr', 'lst', 'tup', 'tre'])
+            if pool[a][0] in ('arr', 'lst') and pool[b][0] == 'tup': continue                  # Array / List from a Tuple: KF-C10-assign-from-tuple
+            L.append(f'assign {a} {b}')
         elif r < 0.97:
-            a, b = pick(), pick(); L.append(f'swap {a} {b}')
+            a, b = pick(), pick()
+            holds_buf = lambda v: v[0] == 'tup' or (v[0] == 'v' and v[1] == 'S')
+            # a String / Tuple on the stack against one whose header allows realloc: the latter would own a foreign buffer (KF-C10-swap-foreign-buffer)
+            if holds_buf(pool[a]) and holds_buf(pool[b]) and (pool[a][3] == 'S') != (pool[b][3] == 'S'): continue
+            L.append(f'swap {a} {b}')
         else:
             a = pick(['v'])
             if a is not None: L.append(f'put {a} {g.spec(pool[a][1])}')
@@ -637,7 +654,7 @@ class C10(Spec):
     technique = ('Lean 4 proofs over an executable model of hash/cmp/assign/copy/swap whose hash_data, Float_Hash shape and container folds are '
                  'regenerated from the C source on every run; differential check of values, Table slot arrays and hashes against the real '
                  'library; independent MurmurHash64A and shadow values (equal-by-construction pairs) as the direct oracle')
-    level_text = ('Theorems (Props/C10.lean): hash_data as extracted from src/Hash.c equals MurmurHash64A for every byte string and reads only the given '
+    level_text = ('Round-3 additions: valCmp mirrors the sequence Cmps against a Table/Tree (keys alone): C10_eq_hash carries the explicit hypothesis "not a sequence against a map", the full statement is refuted (C10_eq_hash_seq_map_refuted, KF-C10-seq-map-eq); objects carry the class of the memory their String/Tuple buffer lies in, swap moves it with the struct: C10_swap_exchanges (values, buffers, TypeError for unlike types), C10_swap_keeps_ownership_partial (buffers of one kind: both still own their buffer), C10_swap_foreign_buffer_refuted (KF-C10-swap-foreign-buffer); C10_swap_hashes now covers Tuples (TupleApart); assign(x,x) covers String in every class through the extracted guard of String_Assign (fix 744a45f; the old code is refuted: C10_string_assign_self_old_refuted); Array/List from a Tuple is modelled and refuted (C10_assign_from_tuple_refuted, KF-C10-assign-from-tuple). Theorems (Props/C10.lean): hash_data as extracted from src/Hash.c equals MurmurHash64A for every byte string and reads only the given '
                   'bytes; cmp = 0 implies equal hashes for Int, Float (non-NaN, incl. ±0), String, Type, plain structs and Ref/Box; the container hash is '
                   'invariant under permutation of the elements/entries, hence equal for eq sequences of any kind (Array/List/Tuple) and for Tables and '
                   'Trees a function of the abstract map independent of layout and insertion history; copy/assign yield an eq value with the same hash for '
@@ -647,7 +664,7 @@ class C10(Spec):
                   'same set of entries give eq Trees with equal hashes; '
                   'swap exchanges the two values: memswap (src/Assign.c) is extracted as a program — blocks over the remaining count (for / while (s >= k) / '
                   'if (s >= k) / while (s--)) of load-temporary, copy-across, store-temporary, cursor-advance and count-decrement statements with their widths — '
-                  'that the model runs statement by statement on the bytes of the two structs; proved: the extracted program has the shape of a swap '
+                  'that the model runs statement by statement on the bytes of the two structs; swap tests the two types first (sameStruct: TypeError otherwise, C10_swap_type_refused; SwapCompatible is exactly that test); proved: the extracted program has the shape of a swap '
                   '(C10_memswap_source_shape, about the generated definition) and every program of that shape — exchange steps of any widths closed by a '
                   'byte loop — exchanges two n-byte objects for every n and every byte type (C10_memswap_exchanges), also the correct three-stage word-wise '
                   'rewrite (C10_memswap_wordwise_exchanges); a half-word stage that does not advance its cursors is refuted exactly on the sizes 5, 6, 7 '
@@ -666,11 +683,11 @@ class C10(Spec):
                   'and every shape reached by any history of set / rem / order-preserving relinking (the rotations) keeps the invariant '
                   '(a narrowed relocation is refuted on a witness). The model is tied to the code by the translator (constants, steps, '
                   'folds, widths) and by op files run on both.')
-    level_note = ('Trusted: Lean kernel; the regex translator g_hash.py; harness/driver comparison (testing); little-endian 8-byte load; the bit-level model '
+    level_note = ('Independence of eq / hash from address and allocation class: the model\'s hash and cmp take the value only, so this clause is true by the type of the model; its content is carried by the correspondence runs (every scalar at classes stack / heap / embedded-in-Array, containers at stack / heap, class-S Strings over a non-heap buffer, class-S Tuples over a non-heap pointer array), i.e. by testing, not by theorem. Table histories: that a Table reached by set/rem/resize holds pairwise different keys (EntryKeysDistinct, the hypothesis of C10_copy_table_hash / C10_assign_across_maps) is the robin-hood lookup invariant of C02; here it is checked on every sampled Table state of every run (table_keys_not_distinct), not proved. Trusted: Lean kernel; the regex translator g_hash.py; harness/driver comparison (testing); little-endian 8-byte load; the bit-level model '
                   'of Float_Cmp: SubSign (the sign of a - b is the sign of the real difference, no flush-to-zero) is proved for the exact arithmetic sfOps and tested for '
                   'the machine (the driver runs the extracted Float_Cmp on Lean Float and on sfOps for every pair of doubles an op file compares and '
                   'compares sub/mul/fmax/lt results). Not covered: NaN (eq(NaN,x) holds for every x — '
-                  'reported as a known-finding candidate), nested containers in the executable model (the lifting theorems are polymorphic), Table eq '
+                  'known finding KF-C10-float-nan), nested containers in the executable model (the lifting theorems are polymorphic), Table eq '
                   'outside layout-independent tables (known finding). The Tree of this engine is a search tree of entries without colours: the '
                   'rebalancing (Tree_Set_Fix / Tree_Rem_Fix: relinking and recolouring only, no payload move — checked by the translator) is '
                   'abstracted as any order-preserving relinking, the theorems hold for every shape; the shape and balance the C code produces are '
@@ -699,8 +716,9 @@ class C10(Spec):
             '2^32, 2^63 apart, Strings and structs differing in the last byte, in case, across 0x7f/0x80, by one trailing byte — each pair compared as scalars '
             'in every allocation class (oracle: eq holds exactly for the same value, and then the hashes agree), as elements at one position of '
             'Array/List/Tuple, and as keys of a Table and a Tree (Float keys included): has = mem + get before and after set/rem of the neighbour — a key eq '
-            'to a stored one is found and overwritten, a neighbour is absent, makes a second entry and is removed alone; assign(x, x) on every kind '
-            'but String (oracle: dump and hash unchanged); Arrays/Lists of '
+            'to a stored one is found and overwritten, a neighbour is absent, makes a second entry and is removed alone; assign(x, x) on every kind, '
+            'String included in every allocation class (oracle: dump and hash unchanged); swap of two objects of different types (oracle: TypeError, nothing moved), '
+            'of Strings across allocation classes (values and hashes exchanged; swapped back before any mutation), of two Strings whose buffers are both the allocator\'s followed by put on both; Arrays/Lists of '
             'such elements through removals and insertions in the middle. Every op prints the value (Table: slot array) and the hash, compared with the Lean model '
             '(which performs every element move with the width extracted from the source); the harness counts two-children removals and shifting '
             'removals on wide entries (I lines). '
@@ -708,7 +726,7 @@ class C10(Spec):
     trusted_base = ('translate/g_hash.py generator Hash (regex over hash_data, Int_Hash, Float_Hash, String_Hash, Type_Hash, the five container hashes, '
                     'the hash/cmp/assign/swap/copy defaults, Table_Primes; a recursive-descent reader of the body of memswap (guard, cursor declarations, the four '
                     'loop forms, memcpy / *a++ / p[i] statements) and the field counts of the structs swap exchanges; the size/offset expressions of Tree_Alloc/Key/Val/Rem, Table_Step/Key/Val/'
-                    'Set_Move/Rehash/Rem, Array_Step/Item/Pop_At/Push_At)',
+                    'Set_Move/Rehash/Rem, Array_Step/Item/Pop_At/Push_At; the position of `if (val is s->val) { return; }` in String_Assign relative to c_str, the class test and realloc)',
                     'harness/h_hash.c + lean/Driver/Hash.lean (correspondence is testing)',
                     'SubSign for the machine\'s doubles (sign of a - b = sign of the real difference): proved for the exact IEEE-754 model sfOps, which the driver tests against Lean Float on every compared pair',
                     'little-endian memcpy of 8 bytes into a uint64_t (x86-64)')
@@ -717,7 +735,12 @@ class C10(Spec):
                    'containers hold scalar elements (Int, Float, String, plain structs of 1..41 bytes); Tuples hold distinct scalar objects (a repeated object in a Tuple breaks Tuple iteration: other finding)',
                    'Tree key and value types have sizes that are multiples of 8 (Tree_Alloc does not round: known finding KF-C19-tree-misaligned-header)',
                    'copy/assign of a Table of arbitrary layout is observed through content and hashes only (hcopy/hassign): its cmp is KF-C10-table-cmp territory',
-                   'assign(s, s) on a String (String_Assign reallocates the buffer and then strcpy-s from the old pointer: defined only if the block stays) and growth of a List by resize are not exercised',
+                   'growth of a List by resize is not exercised (KF-C05-list-resize-raw); a String operand that is a VIEW into the target, concat/append/print/show with an aliasing operand: KF-C16-alias-operand (assign(s, s) itself is exercised since fix 744a45f)',
+                   'eq of a sequence (left) with a Table / Tree (right) is compared on the keys alone: known finding KF-C10-seq-map-eq — generated inputs put the map on the left (both sides then refuse the pair: Table_Cmp / Tree_Cmp call get(sequence, key) — IndexOutOfBoundsError / TypeError or an unrelated element; not modelled)',
+                   'no operation that reallocates or frees the buffer of a heap / embedded String or Tuple while it holds the buffer of a stack one after swap: known finding KF-C10-swap-foreign-buffer (the cross-class swap itself, and everything read-only after it, is generated and checked)',
+                   'assign(array or list, tuple) is not generated: known finding KF-C10-assign-from-tuple; assign(tuple, array or list) is outside the model (the Tuple then points into the container\'s storage, the model\'s Tuples hold objects of the store; checked by hand: eq, equal hashes; the aliasing is KF-C01-tuple-aliases-elements)',
+                   'the value universe is Int, Float, String, Type, Ref, Box, plain structs, Array, List, Tuple, Table, Tree (the types the property quantifies over). Range, Slice, Zip, Filter, Map are iteration views, not values in the sense of C10: they declare Cmp but no Hash (hash falls back to hash_data over the struct including its cursor pointer, so eq ranges hash differently) and copy raises ValueError (Range_Assign assigns into the NULL member of the fresh object) — reported to the coordinator as an observation, not exercised',
+                   'nested containers are not generated (checked by hand: copy of Array<Array<Int>>, Table<String,Array>, Tree<String,List>, List<Tuple> is eq with equal hashes; the lifting theorems C10_seq_eq_hash / C10_map_eq_hash are polymorphic in the element); swap of Type objects is refused by both sides',
                    'strings contain no NUL; hash values compared on a little-endian 64-bit platform')
     def cases(self, rng, tier, boost=1):
         quick = tier == 'quick'
